@@ -31,7 +31,7 @@ Inductive insn :=
 
 (* inline-asm moves of mcount_save_arch_context / mcount_restore_arch_context
    (arch/x86_64/mcount-support.c): mnemonic, xmm register, index of ctx->xmm[] *)
-Inductive xmov := Xmovsd | Xmovq | Xmovdqu | Xmovups.
+Inductive xmov := Xmovsd | Xmovq | Xmovdqu | Xmovups | Xvmovdqu.   (* Xvmovdqu: the 256-bit form on %ymm<x> *)
 Inductive xop :=
 | XSave (m : xmov) (x : nat) (slot : nat)      (* <m> %xmm<x>, ctx->xmm[slot] *)
 | XLoad (m : xmov) (slot : nat) (x : nat).     (* <m> ctx->xmm[slot], %xmm<x> *)
